@@ -337,7 +337,8 @@ Print Assumptions model_passes_C08_clause_5.
     MODEL, the clause [check_case_C08] answers is never 1, 2, 5, 6, 8 or 9.  NOT covered: clause 3
     (one-shot contexts), clause 4 (the checker's schedule tracker), clause 7 as a whole (its two
     history-wide lists are [model_passes_C08_clause_7_history]; the step-wise comparison with
-    [expected_cb] is not done), and the correspondence component. *)
+    [expected_cb] is not done).  The correspondence component is -1 over every history:
+    [model_corresponds_to_itself], Props/C07.v. *)
 Theorem model_passes_clauses_C08 :
   forall c steps h0 t0 l0 univ,
     c_msvc c < 0 -> 0 <= c_tax c -> clean l0 -> NoDup (create_txhs steps) -> Forall good_step steps ->
